@@ -95,7 +95,7 @@ def run_tlc(spec_dir, module, cfg, out_path, workers=8, timeout=900, simulate=No
             seed=None, env=None, jvm=None, extra=None, metadir=None, coverage=False):
     """Run TLC on spec_dir/module with spec_dir/cfg; full output goes to out_path."""
     metadir = metadir or (out_path + ".meta")
-    cmd = ["java", "-XX:+UseParallelGC", "-DTLA-Library=" + os.path.join(VERIF, "spec", "lib")] + (jvm or []) + ["-cp", TLA_CP, "tlc2.TLC",
+    cmd = ["java", "-XX:+UseParallelGC", "-Xss64m", "-DTLA-Library=" + os.path.join(VERIF, "spec", "lib")] + (jvm or []) + ["-cp", TLA_CP, "tlc2.TLC",
            "-workers", str(workers), "-metadir", metadir, "-cleanup", "-noGenerateSpecTE",
            "-config", cfg]
     if coverage:
@@ -192,6 +192,17 @@ class Ctx:
             tail = subprocess.run(["tail", "-n", "40", out], capture_output=True, text=True).stdout
             raise ToolError("TLC run %s failed (%s)\n%s" % (name, res.violation or res.error, tail))
         return res
+
+    def tlc_parallel_sim(self, spec_rel_dir, module, cfg, name, total, depth, procs=6, timeout=3000):
+        """Random simulation with several single-worker TLC processes (different seeds) side by side:
+        multi-worker simulation of specs with deep recursive operators is unreliable in TLC 1.8."""
+        from concurrent.futures import ThreadPoolExecutor
+        per = max(1, total // procs)
+        def one(i):
+            return self.tlc(spec_rel_dir, module, cfg, name="%s_%d" % (name, i), workers=1, timeout=timeout,
+                            simulate=per, depth=depth, seed=self.seed * 1000 + i)
+        with ThreadPoolExecutor(max_workers=procs) as ex:
+            return list(ex.map(one, range(procs)))
 
     # ---------------------------------------------------------------- harness
     def build(self, harness):
